@@ -15,10 +15,22 @@ use std::{
 use crate::io::{FatPage, IoCommand, IoHandle, IoKind};
 
 pub(super) fn write_wal(mut wal_fd: &File, wal_blob: &[u8]) -> std::io::Result<()> {
+    #[cfg(nomt_verif)]
+    crate::verif::pre(crate::verif::Kind::SetLen, wal_fd.as_raw_fd(), 0, 0, None)?;
     wal_fd.set_len(0)?;
+    #[cfg(nomt_verif)]
+    crate::verif::post(crate::verif::Kind::SetLen, wal_fd.as_raw_fd());
     wal_fd.seek(SeekFrom::Start(0))?;
+    #[cfg(nomt_verif)]
+    crate::verif::pre(crate::verif::Kind::Append, wal_fd.as_raw_fd(), 0, wal_blob.len() as u64, Some(wal_blob))?;
     wal_fd.write_all(wal_blob)?;
+    #[cfg(nomt_verif)]
+    crate::verif::post(crate::verif::Kind::Append, wal_fd.as_raw_fd());
+    #[cfg(nomt_verif)]
+    crate::verif::pre(crate::verif::Kind::Fsync, wal_fd.as_raw_fd(), 0, 0, None)?;
     wal_fd.sync_all()?;
+    #[cfg(nomt_verif)]
+    crate::verif::post(crate::verif::Kind::Fsync, wal_fd.as_raw_fd());
     Ok(())
 }
 
@@ -26,10 +38,18 @@ pub(super) fn write_wal(mut wal_fd: &File, wal_blob: &[u8]) -> std::io::Result<(
 ///
 /// Conditionally syncs the file to disk.
 pub(super) fn truncate_wal(mut wal_fd: &File, do_sync: bool) -> std::io::Result<()> {
+    #[cfg(nomt_verif)]
+    crate::verif::pre(crate::verif::Kind::SetLen, wal_fd.as_raw_fd(), 0, 0, None)?;
     wal_fd.set_len(0)?;
+    #[cfg(nomt_verif)]
+    crate::verif::post(crate::verif::Kind::SetLen, wal_fd.as_raw_fd());
     wal_fd.seek(SeekFrom::Start(0))?;
     if do_sync {
+        #[cfg(nomt_verif)]
+        crate::verif::pre(crate::verif::Kind::Fsync, wal_fd.as_raw_fd(), 0, 0, None)?;
         wal_fd.sync_all()?;
+        #[cfg(nomt_verif)]
+        crate::verif::post(crate::verif::Kind::Fsync, wal_fd.as_raw_fd());
     }
     Ok(())
 }
@@ -57,7 +77,11 @@ pub(super) fn write_ht(
         sent -= 1;
     }
 
+    #[cfg(nomt_verif)]
+    crate::verif::pre(crate::verif::Kind::Fsync, ht_fd.as_raw_fd(), 0, 0, None)?;
     ht_fd.sync_all()?;
+    #[cfg(nomt_verif)]
+    crate::verif::post(crate::verif::Kind::Fsync, ht_fd.as_raw_fd());
 
     Ok(())
 }
